@@ -2,6 +2,7 @@ package cdcnmon
 
 import (
 	"fmt"
+	"runtime/debug"
 	"strings"
 
 	mod "github.com/craterdog/go-collection-framework/v4"
@@ -294,6 +295,10 @@ func newRing(kind string, siblings int) *ring {
 			ct.SetValue(int64(i), int64(i))
 		}
 		g.val, g.put = ct, func(v any) { ct.SetValue("self", v) }
+	case "Association":
+		// reaches its value without any collection in between
+		as := col.Association[any, any](notation).Make("self", nil)
+		g.val, g.put = as, func(v any) { as.SetValue(v) }
 	default:
 		m := col.Map[any, any](notation).Make()
 		for i := 0; i < siblings; i++ {
@@ -304,9 +309,9 @@ func newRing(kind string, siblings int) *ring {
 	return g
 }
 
-var ringKinds = []string{"List", "Array", "Stack", "Queue", "Catalog", "Map"}
+var ringKinds = []string{"List", "Array", "Stack", "Queue", "Catalog", "Map", "Association"}
 
-func C10TotalityCases() int { return (6 + 36 + 36) * 3 * 2 }
+func C10TotalityCases() int { return (7 + 49 + 36) * 3 * 2 }
 
 // RunC10Totality: FormatValue (and String()) must return for self-containing
 // values and elide ("...") what is nested deeper than the limit.
@@ -316,14 +321,20 @@ func RunC10Totality(c *core.Ctx, idx int) {
 	sib := []int{0, 1, 3}[idx%3]
 	k := idx / 3
 	var kinds []string
+	nk := len(ringKinds)
 	switch {
-	case k < 6:
+	case k < nk:
 		kinds = []string{ringKinds[k]}
-	case k < 42:
-		k -= 6
-		kinds = []string{ringKinds[k/6], ringKinds[k%6]}
+	case k < nk+nk*nk:
+		k -= nk
+		kinds = []string{ringKinds[k/nk], ringKinds[k%nk]}
 	default:
-		kinds = []string{ringKinds[c.Rng.Intn(6)], ringKinds[c.Rng.Intn(6)], ringKinds[c.Rng.Intn(6)]}
+		kinds = []string{ringKinds[c.Rng.Intn(nk)], ringKinds[c.Rng.Intn(nk)], ringKinds[c.Rng.Intn(nk)]}
+	}
+	if variant == 1 && strings.Contains(strings.Join(kinds, " "), "Association") {
+		// (how much an association counts towards the limit of an acyclic nest is not
+		// stated; associations take part in the self-containing shapes only)
+		return
 	}
 	cs := map[string]any{"ring": kinds, "siblings": sib}
 	var v any
@@ -617,4 +628,20 @@ func RunC10Elision(c *core.Ctx) {
 	if c.WantSample("elision") && len(got) < 300 && strings.Contains(got, "...") {
 		c.Sample("elision", map[string]any{"limit": max, "text": got})
 	}
+}
+
+// ReproSelfAssociationFormat: FormatValue of an association whose value is the
+// association itself (child process: the original defect was a fatal stack overflow).
+func ReproSelfAssociationFormat() (bool, string) {
+	debug.SetMaxStack(64 << 20)
+	a := col.Association[any, any](notation).Make("self", nil)
+	a.SetValue(a)
+	var text string
+	if pan, msg := try(func() { text = mod.FormatValue(a) }); pan {
+		return true, "FormatValue of a self-containing association panicked: " + clip(msg, 200)
+	}
+	if !strings.Contains(text, "...") || len(text) > 1<<16 {
+		return true, "FormatValue of a self-containing association returned " + clip(text, 200)
+	}
+	return false, "FormatValue of a self-containing association returns an elided text"
 }
